@@ -421,6 +421,43 @@ theorem skip_before_receive_misaligns :
     consumeResults (fun _ => false) 0 2 [(none : Option VErr), some .extra] = [(0, none), (1, some .extra)] := by
   decide
 
+/-- **the verdict does not depend on the offer history**: after any history of import attempts that were all refused (a block
+    offered before its parent, after a failed sibling, …) the chain is what it was, and the verdict on a header is the one it
+    would have got had the history not happened — acceptance is a function of (header, chain) only. -/
+theorem accept_history_independent (env : Env) (doSeal : Bool) (chain : Chain) (history : List Header) (h : Header)
+    (hrej : ∀ v ∈ (offerAll env doSeal chain history).2, v ≠ none) :
+    (offerAll env doSeal chain history).1 = chain ∧
+    (offer env (offerAll env doSeal chain history).1 h doSeal).2 = verifyHeaderEntry env chain h doSeal := by
+  have key : ∀ (hist : List Header) (c : Chain), (∀ v ∈ (offerAll env doSeal c hist).2, v ≠ none) → (offerAll env doSeal c hist).1 = c := by
+    intro hist
+    induction hist with
+    | nil => intro c _; rfl
+    | cons x xs ih =>
+      intro c hr
+      simp only [offerAll] at hr ⊢
+      have hx : (offer env c x doSeal).2 ≠ none := hr _ List.mem_cons_self
+      have hc : (offer env c x doSeal).1 = c := by
+        unfold offer at hx ⊢
+        cases hv : verifyHeaderEntry env c x doSeal with
+        | none => rw [hv] at hx; exact absurd rfl hx
+        | some e => rfl
+      rw [hc] at hr ⊢
+      exact ih c (fun v hv => hr v (List.mem_cons_of_mem _ hv))
+  have hc := key history chain hrej
+  refine ⟨hc, ?_⟩
+  rw [hc]
+  unfold offer
+  cases verifyHeaderEntry env chain h doSeal <;> rfl
+
+/-- … in particular a header refused as `unknown-ancestor` is accepted later exactly when it is valid relative to the chain then. -/
+theorem early_offer_is_harmless (env : Env) (doSeal : Bool) (chain : Chain) (early parent : Header)
+    (h1 : verifyHeaderEntry env chain early doSeal = some .unknownAncestor)
+    (h2 : verifyHeaderEntry env chain parent doSeal = none) :
+    (offerAll env doSeal chain [early, parent, early]).2 =
+      [some .unknownAncestor, none, verifyHeaderEntry env (chain.insert parent) early doSeal] := by
+  simp only [offerAll, offer, h1, h2]
+  cases verifyHeaderEntry env (chain.insert parent) early doSeal <;> rfl
+
 /-- two schedules of the same batch report the same thing. -/
 theorem batch_schedule_independent (env : Env) (chain : Chain) (hs : List Header) (seals : List Bool) (c₁ c₂ : List Nat)
     (h₁ : ∀ i, i < hs.length → i ∈ c₁) (h₂ : ∀ i, i < hs.length → i ∈ c₂) :
@@ -519,6 +556,10 @@ example : linked exBatch = true ∧ (∀ a ∈ exBatch, a.number + 1 < two64) :=
 example : linked [exBatch[0]!, { exBatch[1]! with parentHash := 999 }] = false ∧ linked exBatch.reverse = false ∧
     linked [exBatch[0]!, { exBatch[1]! with number := 20001 }] = false := by decide
 example : validateHeaderChain (genEnv exCfg 1700000000 (fun _ => false)) exStored [exBatch[0]!, { exBatch[1]! with parentHash := 999 }] [true, true] [1, 0] = .nonContiguous := by decide
+
+-- `accept_history_independent` / `early_offer_is_harmless`: the second header of the example batch offered before the first is an unknown ancestor, then accepted in order
+example : (offerAll (genEnv exCfg 1700000000 (fun _ => false)) true exStored
+    [{ exBatch[1]! with difficulty := 92073152 }, exBatch[0]!, { exBatch[1]! with difficulty := 92073152 }]).2 = [some .unknownAncestor, none, none] := by decide
 
 -- … and the first header failing its seal is reported at index 0 by both paths, for any schedule
 example : firstFailure (verifyHeadersBatch (genEnv exCfg 1700000000 (fun h => h.number == 19999)) exStored exBatch [true, true] [1, 0]) = some (0, .sealErr) ∧
